@@ -21,6 +21,7 @@ import (
 	"time"
 
 	_ "github.com/mattn/go-sqlite3"
+	rhp2 "go.sia.tech/core/rhp/v2"
 	rhp3 "go.sia.tech/core/rhp/v3"
 	proto4 "go.sia.tech/core/rhp/v4"
 	"go.sia.tech/core/types"
@@ -509,6 +510,24 @@ func (sd *side) mirrorSnapshot(live []types.FileContractID) snapshot {
 	}
 	sort.Slice(rows, func(i, j int) bool { return rows[i][0] < rows[j][0] })
 	s["m:roots"] = js(rows)
+	// what the manager serves against what the contract's signed revision commits to
+	var valid [][]string
+	for _, id := range live {
+		roots := m.cm.SectorRoots(id)
+		var meta types.Hash256
+		if len(roots) > 0 {
+			meta = rhp2.MetaRoot(roots)
+		}
+		verdict := "unknown"
+		if c, err := sd.st.Contract(id); err == nil {
+			verdict = fmt.Sprintf("root=%v size=%v", c.Revision.FileMerkleRoot == meta, c.Revision.Filesize == uint64(len(roots))*rhp2.SectorSize)
+		} else if c2, err := sd.st.V2Contract(id); err == nil {
+			verdict = fmt.Sprintf("root=%v size=%v", c2.FileMerkleRoot == meta, c2.Filesize == uint64(len(roots))*rhp2.SectorSize)
+		}
+		valid = append(valid, []string{id.String(), verdict})
+	}
+	sort.Slice(valid, func(i, j int) bool { return valid[i][0] < valid[j][0] })
+	s["m:rootsvalid"] = js(valid)
 	var bals []any
 	for a := 1; a <= nAccounts; a++ {
 		b, err := m.am.Balance(acct3(a))
